@@ -369,6 +369,7 @@ const (
 	oForeign
 	oTime
 	oRun
+	oInfluence
 )
 
 type opDef struct {
@@ -531,6 +532,7 @@ func newModel(cfg *scopeCfg) *model {
 		}
 	}
 	rest = append(rest, opDef{kind: oPush})
+	rest = append(rest, opDef{kind: oInfluence})
 	if cfg.hand {
 		for d := 1; d < len(drawNames); d++ {
 			rest = append(rest, opDef{kind: oPush, draw: d})
@@ -607,6 +609,8 @@ func (m *model) OpName(i int) string {
 		return "+" + o.d.String()
 	case oRun:
 		return fmt.Sprintf("run(%s,%d/%d steps)", m.cfg.tmpls[o.k].name, o.j, m.runLen[o.k])
+	case oInfluence:
+		return "influence"
 	}
 	return "?"
 }
@@ -646,7 +650,7 @@ func (m *model) Possible(h []int, op int) bool {
 		return handBuilds > 0
 	case oAddWaitHand:
 		return handBuilds > 0 && built >= drawNeeds[o.draw]
-	case oRemove, oExec:
+	case oRemove, oExec, oInfluence:
 		return submitted
 	case oCatchup:
 		return execd || foreign
@@ -721,6 +725,8 @@ func (m *model) Enabled(i int) bool {
 		return m.drawMatters(o.draw, nil)
 	case oExec:
 		return len(m.mail[o.r]) > 0
+	case oInfluence:
+		return len(m.oc.GetOperators()) > 0
 	case oCatchup:
 		return m.sims[o.r].HasPending()
 	case oForeign:
@@ -736,6 +742,17 @@ func (m *model) Enabled(i int) bool {
 		return r.Clone().ApplyCommand(cmd) == nil
 	}
 	return true
+}
+
+// record reads the controller's remembered end status of a region (shadowed by the
+// running operator in GetOperatorStatus).
+func (m *model) record(regionID uint64) *schedule.OperatorWithStatus {
+	f := reflect.ValueOf(m.oc).Elem().FieldByName("opRecords")
+	if !f.IsValid() || f.Kind() != reflect.Ptr {
+		infra("OperatorController.opRecords not found")
+	}
+	recs := (*schedule.OperatorRecords)(unsafe.Pointer(f.Pointer()))
+	return recs.Get(regionID)
 }
 
 // notifier queue (hidden state that decides what PushOperators does), read for the state key only
@@ -817,6 +834,11 @@ func (m *model) Key() string {
 		if ws := m.oc.GetOperatorStatus(r.ID); ws != nil {
 			if rc := m.recOf(ws.Op); rc != nil {
 				fmt.Fprintf(&b, " rec:%d/%s", rc.idx, ws.Status)
+			}
+		}
+		if hr := m.record(r.ID); hr != nil {
+			if rc := m.recOf(hr.Op); rc != nil {
+				fmt.Fprintf(&b, " kept:%d/%s", rc.idx, hr.Status)
 			}
 		}
 	}
@@ -1078,6 +1100,34 @@ func (m *model) observe(pre *snapshot, what string) *hist.Violation {
 		if running[i] != nil {
 			if ws == nil || ws.Op != running[i].op || ws.Status != operator.OpStatusToPDPB(running[i].op.Status()) {
 				return bad("end-status-not-remembered", "after %s: GetOperatorStatus(%d) does not report the running %s", what, regionIDs[i], m.describe(running[i]))
+			}
+			// operators that left the running set in this event while another one took
+			// their place: GetOperatorStatus reports the new one, the end status must be
+			// in the controller's records all the same
+			var left []*opRec
+			for _, rc := range endedNow[i] {
+				if pre.running[i] == rc.idx && rc != running[i] {
+					left = append(left, rc)
+				}
+			}
+			if len(left) > 0 {
+				rec := m.record(regionIDs[i])
+				ok := false
+				for _, rc := range endedNow[i] {
+					if rec != nil && rec.Op == rc.op && rec.Status == operator.OpStatusToPDPB(rc.op.Status()) {
+						ok = true
+					}
+				}
+				if !ok {
+					got := "nothing"
+					if rec != nil {
+						got = rec.Status.String()
+						if rc := m.recOf(rec.Op); rc != nil {
+							got += fmt.Sprintf(" for operator #%d", rc.idx)
+						}
+					}
+					return bad("end-status-not-remembered", "after %s: %s left the running set (another operator took its place) but the controller's records hold %s for region %d", what, m.describe(left[0]), got, regionIDs[i])
+				}
 			}
 			continue
 		}
@@ -1437,6 +1487,12 @@ func (m *model) Apply(i int) *hist.Violation {
 		pre := m.snap()
 		vclock.Advance(o.d)
 		m.now += o.d
+		return m.observe(pre, m.OpName(i))
+	case oInfluence:
+		// what every scheduler round does first: it also marks running operators that
+		// have timed out / finished, which stay in the running set until the next dispatch
+		pre := m.snap()
+		_ = m.oc.GetOpInfluence(m.cl)
 		return m.observe(pre, m.OpName(i))
 	case oRun:
 		if v := m.doAdd(o.k); v != nil {
